@@ -54,6 +54,22 @@ def vstr(triple):
     return ".".join(str(c) for c in triple)
 
 
+_DEVICE_COUNTER = [0]
+
+
+def fresh_device():
+    """A device name no earlier case of this process has used: whatever plotink may remember per device name
+    cannot leak from one generated case into the next, so every failing case reproduces on its own."""
+    _DEVICE_COUNTER[0] += 1
+    return "/dev/ttyACM%d" % (1000 + _DEVICE_COUNTER[0])
+
+
+def legacy_port(board, device):
+    port = FakePort(board)
+    port.port = port.name = port.portstr = device
+    return port
+
+
 # ------------------------------------------------------------------ (1) version order
 def body_order(ctx, case):
     version, threshold = tuple(case["v"]), tuple(case["t"])
@@ -65,11 +81,12 @@ def body_order(ctx, case):
     if case.get("prior"):
         classes.add("order_after_other_board")
     ctx.record(case, classes, nontrivial)
+    device = fresh_device()
     if case.get("prior"):
         # another board was attached under the same device name earlier in this process
-        classes.add("order_after_other_board")
-        call_sut(ebb_serial.min_version, FakePort(Board("legacy", version=vstr(case["prior"]))), vstr(threshold))
-    port = FakePort(Board("legacy", version=vstr(version)))
+        call_sut(ebb_serial.min_version, legacy_port(Board("legacy", version=vstr(case["prior"])), device),
+                 vstr(threshold))
+    port = legacy_port(Board("legacy", version=vstr(version)), device)
     got = call_sut(ebb_serial.min_version, port, vstr(threshold))
     if got is not want:
         ctx.fail("ebb_serial.min_version(<board reporting %s>, %r) = %r, expected %r (numeric order)"
@@ -264,16 +281,17 @@ def body_gate(ctx, case):
         shown = vstr(version)
     if case.get("prior"):
         classes.add("gate_after_other_board")
+    device = fresh_device()
     ctx.record(case, classes, nontrivial)
     if case.get("prior"):
         # the same gated call was made earlier against another board attached under the same device name
         try:
-            call(FakePort(Board("legacy", version=vstr(case["prior"]), nickname="West")))
+            call(legacy_port(Board("legacy", version=vstr(case["prior"]), nickname="West"), device))
         except Exception as exc:  # pylint: disable=broad-except
             ctx.fail("%s on a board reporting %s raised %s: %s" % (gate, vstr(case["prior"]), type(exc).__name__,
                                                                    exc), case)
         shown += " (attached after a board reporting %s)" % vstr(case["prior"])
-    port = FakePort(board)
+    port = legacy_port(board, device)
     try:
         call(port)
     except Exception as exc:  # pylint: disable=broad-except
